@@ -25,6 +25,11 @@ def run(ctx):
         for cc in ('/usr/bin/gcc', '/usr/bin/clang'):
             res = sysmon.st.run_fault_histories(sysmon.sysroot(ctx, 'c09'), 'c09' + os.path.basename(cc), cc, ctx.seed * 13, nh if cc.endswith('gcc') else max(1, nh // 2), nr)
             sysmon.feed(ctx, res, findings, f'system faults {os.path.basename(cc)}')
+        # "... the cache being read-only ...": histories against a pre-populated read-only cache (half of them with damaged entries and a header
+        # that uses __TIMESTAMP__, whose preprocessor-cache entries want rewriting); whether the cache stays unchanged is C15's business
+        res = sysmon.st.run_readonly(sysmon.sysroot(ctx, 'c09ro'), 'c09ro', '/usr/bin/gcc', ctx.seed * 37, 3 if ctx.quick() else 12, 6 if ctx.quick() else 24)
+        res['fails'] = [f for f in res['fails'] if not f['kind'].startswith('readonly_cache_modified')]
+        sysmon.feed(ctx, res, findings, 'system read-only cache')
     ctx.rules.append('h_l1: prestored x cache control x lookup {inner, miss, error, undecodable} x compile {ok, error, #error} x store {ok, fails} (144 cases, exhaustive) + 7 on-disk faults of the '
                      'preprocessor-cache entry x 2 controls; system: truncate / half / garbage / delete / replace-by-directory / bit-flip on result and preprocessor entries, removed cache directory, 2K size limit')
     ctx.assumptions += ['the 60 s lookup time-out is an input symbol of the decision function, not a clock']
